@@ -37,9 +37,11 @@ func Assert_subroutine_called(ctx *context.Context, args ...value.Value) (value.
 	// Check custom message
 	var message string
 	var times int64 = 1
+	anyTimes := true // without times, the subroutine only has to be called at all
 	var prural string
 	switch len(args) {
 	case 3: // (name, times, message)
+		anyTimes = false
 		times = value.Unwrap[*value.Integer](args[1]).Value
 		if times > 1 {
 			prural = "s"
@@ -48,6 +50,7 @@ func Assert_subroutine_called(ctx *context.Context, args ...value.Value) (value.
 	case 2: // (name, times or message)
 		switch args[1].Type() {
 		case value.IntegerType:
+			anyTimes = false
 			times = value.Unwrap[*value.Integer](args[1]).Value
 			if times > 1 {
 				prural = "s"
@@ -69,6 +72,9 @@ func Assert_subroutine_called(ctx *context.Context, args ...value.Value) (value.
 			return &value.Boolean{}, errors.NewAssertionError(args[0], "%s", message)
 		}
 		return &value.Boolean{}, errors.NewAssertionError(args[0], "Subroutine %s is not called", name)
+	}
+	if anyTimes && call >= 1 {
+		return &value.Boolean{Value: true}, nil
 	}
 	if int64(call) != times {
 		var cp string
